@@ -424,7 +424,9 @@ def screen_obligation(ctx, kc: KitClass, rule: str, informational: bool = False,
     T = sites + 1 fragments."""
     r = ctx.report
     p = ctx.program
-    owner, raw = p.class_attr_def(kc.ci, "_match")
+    from .roles import match_slot
+
+    owner, raw = p.class_attr_def(kc.ci, match_slot(p))
     if not isinstance(raw, FuncInfo):
         return r.ob(rule, kc.name, False, "_match does not resolve to a function", kc.ci.where())
     site, n, k = enzyme_geometry(kc.cutter)
